@@ -3,6 +3,7 @@ package verifsim
 import (
 	"bytes"
 	"context"
+	"encoding/base64"
 	"encoding/json"
 	"fmt"
 	"strings"
@@ -157,7 +158,7 @@ func runC11(rc *RunCtx) {
 		return c
 	}
 	canaries = append(canaries, tok)
-	kinds := []string{"echo", "write", "read", "wrapped", "login", "tcreate", "list"}
+	kinds := []string{"echo", "write", "read", "wrapped", "login", "tcreate", "list", "wrapped-jwt"}
 	_, err = h.RootWrite("rec/data/pre", map[string]any{"value": canary("stored")})
 	must(err)
 	mkReq := func(kind string) Req {
@@ -170,6 +171,8 @@ func runC11(rc *RunCtx) {
 			return Req{Op: logical.ReadOperation, Path: "rec/data/pre", Token: tok}
 		case "wrapped":
 			return Req{Op: logical.ReadOperation, Path: "rec/data/pre", Token: tok, WrapTTL: time.Minute}
+		case "wrapped-jwt": // the wrapping token is handed out as a JWT carrying the token id
+			return Req{Op: logical.ReadOperation, Path: "rec/data/pre", Token: tok, WrapTTL: time.Minute, WrapFmt: "jwt"}
 		case "login":
 			return Req{Op: logical.UpdateOperation, Path: "auth/rec/login", Data: map[string]any{"policies": "p", "alias": "plain-alias"}}
 		case "tcreate":
@@ -246,6 +249,19 @@ func runC11(rc *RunCtx) {
 		}
 		if resp != nil && resp.WrapInfo != nil {
 			canaries = append(canaries, resp.WrapInfo.Token)
+			// a JWT-format wrapping token carries the actual token id in its
+			// "jti" claim: that id is what unwraps, so it is a secret too
+			if parts := strings.Split(resp.WrapInfo.Token, "."); len(parts) == 3 {
+				if pb, err := base64.RawURLEncoding.DecodeString(parts[1]); err == nil {
+					var claims map[string]any
+					if json.Unmarshal(pb, &claims) == nil {
+						if jti, _ := claims["jti"].(string); jti != "" {
+							canaries = append(canaries, jti)
+							s.Probe("jwt_wrapping_token_issued")
+						}
+					}
+				}
+			}
 		}
 		if resp != nil && resp.Auth != nil && resp.Auth.ClientToken != "" {
 			canaries = append(canaries, resp.Auth.ClientToken)
